@@ -151,6 +151,9 @@ func RunCases(ctx *hx.Ctx, prop string, cases []*Case) {
 
 func cov(ctx *hx.Ctx, o *Obs) {
 	ctx.Cov.Count("tx=" + describe(o))
+	if o.Stop != ^uint64(0) {
+		ctx.Cov.Count("fork=hayabusa-active(energy-growth-stopped,pos)")
+	}
 	if o.BaseFee != nil {
 		ctx.Cov.Count("fork=post-galactica")
 	} else {
@@ -251,13 +254,16 @@ const Rule = "cases = fresh devnet world (custom ForkConfig, GALACTICA at block 
 	"payer in {origin, VIP-191 delegator, sponsor, contract credit}, gas from below the intrinsic gas upward and at the block limit, block-ref with and " +
 	"without proved work or with a failing lookup; evaluation = one transaction; non-trivial = applied with at least 2 clauses started; distinct = hash of setup + tx prefix"
 
-const ChainRule = "; chains = the same generated state carried by block 1, then 2-5 blocks of 0-5 generated transactions packed by the real packer.Flow " +
-	"(Schedule / Adopt / Pack) across the GALACTICA height, block-level predicates (header gas used = sum of receipts <= limit; totals over all account leaves " +
-	"before / after each block; header base fee = recurrence on the parent) evaluated on the implementation"
+const ChainRule = "; 1/6 of the worlds sit on the repo's integration chain at block 5 (HAYABUSA active since block 2: energy growth stopped; PoS active since block 4)" +
+	"; chains = (a) the same generated state carried by block 1, then 2-5 blocks of 0-5 generated transactions (also expired, wrong chain tag, future block-ref, duplicates, " +
+	"dependencies on adopted / reverted / rejected / unknown txs, gas hogs) packed by the real packer.Flow (Schedule / Adopt / Pack) across the GALACTICA height with the Adopt " +
+	"differential (shadow runtime + extracted adopt_full stepped per tx); (b) 5-8 blocks from genesis on the integration chain across HAYABUSA (2), staking (3) and the PoS " +
+	"take-over (4), GALACTICA at 1..6 or never, with staker calls among the transactions; block-level predicates (header gas used = sum of receipts <= limit; totals and every " +
+	"leaf's funds before / after each block incl. the staking reward; growth stop; header base fee = recurrence on the parent; consensus accepts PoS blocks) evaluated on the implementation"
 
 var Assumptions = []string{
 	"what a clause does inside the EVM is observed (gas left, refund counter, VM error through the public vm tracer; transfers / energy events from the receipt), not modelled (C10)",
 	"signature recovery, proved-work hash, prototype credit / sponsor lookups, params (base gas price, reward ratio) are computed by the real code and passed to the model as data",
 	"typed transactions before GALACTICA (nil base fee) are outside the input domain: consensus and packer reject them before the runtime",
-	"PoS / HAYABUSA staking reward: proved on the model (vtho_delta_block), not exercised by the harness (PoA devnet)",
+	"PoS worlds: Schedule itself updates the staker, so the Adopt differential runs on PoA chains only; no delegator contract exists in the harness (hasDelegations = false)",
 }
